@@ -318,7 +318,9 @@ PROPS = {
                    "frequenz.sdk.timeseries.formula_engine._formula_generators._formula_generator:"
                    "FormulaGenerator._get_meter_fallback_components"],
         lemmas=[],
-        bounded=[],
+        bounded=[dict(kind="native_script", name="the primary's way into the formula (pool -> resampled builder -> engine): a valid "
+                                                 "reading, exactly 0.0 included, reaches the formula as that number",
+                      module="native.explore_formula_pool")],
         level="proof",
         explanation="MetricFetcher's switching logic against scripted primary/fallback streams on a common grid (timestamps "
                     "counted in grid steps): the fallback stream is read forward until it reaches the primary sample's "
@@ -408,7 +410,9 @@ PROPS = {
         bounded=[dict(kind="native_script", name="compiled formula vs exact arithmetic (Tokenizer, FormulaBuilder, composition API)",
                       module="native.explore_formulas"),
                  dict(kind="native_script", name="values of the SAME timestamp: real FormulaEngine over real channels, streams "
-                                                 "starting at different steps", module="native.explore_evaluator")],
+                                                 "starting at different steps", module="native.explore_evaluator"),
+                 dict(kind="native_script", name="string formulas from one FormulaEnginePool, alone and composed with the operator API",
+                      module="native.explore_formula_pool")],
         level="exploration",
         explanation="The property proper (compiler correctness of the shunting-yard with its unconventional precedence table and of "
                     "the composition API's implicit parenthesisation) is only EXPLORED, bounded: real Tokenizer/FormulaBuilder/"
